@@ -24,6 +24,8 @@ import Hy.Drv.Bbr
 import Hy.Drv.C18
 import Hy.Drv.C18Mux
 import Hy.Drv.Relay
+import Hy.Drv.Auth
+import Hy.Drv.Masq
 
 open Hy.Drv
 
@@ -70,4 +72,6 @@ def main (args : List String) : IO UInt32 := do
   | ["c18"] => loopPure stdin stdout C18.step; return 0
   | ["c18mux"] => loopPure stdin stdout C18Mux.step; return 0
   | ["relay"] => loopPure stdin stdout Relay.step; return 0
+  | ["auth"] => loopPure stdin stdout Auth.step; return 0
+  | ["masq"] => loopState stdin stdout Masq.step Masq.init; return 0
   | _ => IO.eprintln "usage: hydrv <component>"; return 2
